@@ -24,6 +24,9 @@ extern crate alloc;
 #[cfg(feature = "std")]
 extern crate std;
 
+#[cfg(all(roxmltree_verif, not(feature = "std")))]
+extern crate std;
+
 use core::cmp::Ordering;
 use core::fmt;
 use core::hash::{Hash, Hasher};
@@ -34,6 +37,9 @@ use alloc::vec::Vec;
 
 mod parse;
 mod tokenizer;
+
+#[cfg(roxmltree_verif)]
+pub mod verif;
 
 #[cfg(test)]
 mod tokenizer_tests;
